@@ -566,6 +566,41 @@ def guard_settings(ir, cname, inst, line, witness):
     return fixed, over
 
 
+def _enum_consts(node, out):
+    """enumeration members the line's program compares with: (enum id, member)"""
+    if isinstance(node, list):
+        if len(node) == 3 and node[0] == 'enumv' and all(isinstance(x, str) for x in node[1:]):
+            out.add((node[1], node[2]))
+        for x in node:
+            _enum_consts(x, out)
+    elif isinstance(node, dict):
+        for x in node.values():
+            _enum_consts(x, out)
+    return out
+
+
+def enum_directed_plans(ir, line, base):
+    """one plan per enumeration member the line mentions: every input of that enumeration answers that member
+    (a branch such as `if v['1099-div:{n}.box_14_2'] == NC` is then taken)"""
+    consts = sorted(_enum_consts(line.get('body'), set()))
+    kinds = _input_kinds(ir)
+    plans, combined = [], dict(base)
+    for eid, member in consts:
+        if eid in ('filing_status',) or 'filing_status' in eid.lower().replace(' ', '_'):
+            continue
+        keys = sorted({k for (_c, k), kind in kinds.items() if kind and kind[0] == 'enum' and kind[1] == eid})
+        if not keys:
+            continue
+        g = dict(base)
+        for k in keys:
+            g[k] = member
+            combined.setdefault(k, member)
+        plans.append((f'enum {eid}={member}', g, 0.0))
+    if len(plans) > 1:
+        plans.append(('enum members combined', combined, 0.0))
+    return plans[:8]
+
+
 def search_replay(sc, seed, year, ir, cname, inst, line, witness, attempts, kinds_wanted=None):
     """run real solves that request the line until one ends in a C10 exception; returns (record, tries)"""
     form_name = f'{cname}{":" + inst if inst else ""}'
@@ -581,6 +616,9 @@ def search_replay(sc, seed, year, ir, cname, inst, line, witness, attempts, kind
                 g2[k] = str(over)
         g2[bound] = str(over)
         plans.insert(1, ('past the declared lines', g2, 0.0))
+    directed = enum_directed_plans(ir, line, base)
+    plans += directed
+    attempts = max(attempts, len(plans))
     rng = random.Random(f'{seed}/c10/search/{year}/{field}')
     for k in range(max(0, attempts - len(plans))):
         g = dict(base)
